@@ -3,6 +3,8 @@ import N2k.Lemmas.TPLinkRx
 namespace N2k.TP
 open N2k.Send N2k.Time N2k.Spec
 
+variable {i : Nat}
+
 section
 variable (b : Node) (db : Dev) (m : Msg) (srcA j : Nat) (S' : List Slot) (a0 : Slot)
 
@@ -12,7 +14,7 @@ def rcv (mt : Nat) (out : List Delivery) (k : Nat) (fs rxq : List Frame) : Node 
 
 /-- packets `k .. k+x-1` (0-based), none of which ends a CTS window or the message, arrive one after the other -/
 theorem rx_run (out : List Delivery) (fs rxq : List Frame)
-    (hd : Lead b db) (hq : Quiet b.s 0) (hsrc : srcA < 256) (hdst : m.dst = db.source)
+    (hd : Lead b i db) (hq : Quiet b.s i) (hsrc : srcA < 256) (hdst : m.dst = db.source)
     (hnone : findIdx (sessOf srcA db.source) S' = none) (hj : j < S'.length) (hlen : m.len ≤ 223) :
     ∀ (x k mt : Nat), (∀ y, y < x → (k + y + 1) % tpCtsPackets (tpPacketCount m.len) ≠ 0) → 7 * (k + x) < m.len →
       rxList ((List.range x).map fun y => dtFrame srcA m (k + y)) (rcv b db m srcA j S' a0 mt out k fs rxq)
@@ -42,15 +44,15 @@ theorem add_mod_of_dvd (k z c : Nat) (hk : k % c = 0) (hz : z < c) : (k + z) % c
 theorem add_mod_self_of_dvd (k c : Nat) (hk : k % c = 0) : (k + c) % c = 0 := by
   rw [Nat.add_mod, hk, Nat.mod_self]; simp
 
-theorem rcv_solo (mt : Nat) (out : List Delivery) (k : Nat) (fs rxq : List Frame) (hd : Lead b db) (hq : Quiet b.s 0) :
-    Lead (rcv b db m srcA j S' a0 mt out k fs rxq) db ∧ Quiet (rcv b db m srcA j S' a0 mt out k fs rxq).s 0 :=
+theorem rcv_solo (mt : Nat) (out : List Delivery) (k : Nat) (fs rxq : List Frame) (hd : Lead b i db) (hq : Quiet b.s i) :
+    Lead (rcv b db m srcA j S' a0 mt out k fs rxq) i db ∧ Quiet (rcv b db m srcA j S' a0 mt out k fs rxq).s i :=
   ⟨hd.same _ _ _ _, upd_quiet _ _ _ _ _ _ hq⟩
 
 /-- **the receiver polls with a complete window that neither is the last one**: it grants the next window -/
 theorem poll_window (k c mt : Nat) (hc : c = tpCtsPackets (tpPacketCount m.len))
-    (hd : Lead b db) (hq : Quiet b.s 0) (hsrc : srcA < 256) (hdst : m.dst = db.source)
+    (hd : Lead b i db) (hq : Quiet b.s i) (hsrc : srcA < 256) (hdst : m.dst = db.source)
     (hnone : findIdx (sessOf srcA db.source) S' = none) (hj : j < S'.length) (hlen : m.len ≤ 223)
-    (hnotp : (b.tp 0).hasPending = false) (hib : InfoIdle b 0) (hkc : k % c = 0) (hfull : 7 * (k + c) < m.len) :
+    (hnotp : (b.tp i).hasPending = false) (hib : InfoIdle b i) (hkc : k % c = 0) (hfull : 7 * (k + c) < m.len) :
     poll (rcv b db m srcA j S' a0 mt [] k [] ((List.range c).map fun y => dtFrame srcA m (k + y))) =
       rcv b db m srcA j S' a0 (millis32 b.s.now) [] (k + c) [cmFrame db.source srcA (ctsBytes m.pgn (tpPacketCount m.len) (k + c + 1))] [] := by
   have hcpos : 0 < c := by rw [hc]; exact tpCtsPackets_pos _
@@ -81,9 +83,9 @@ theorem poll_window (k c mt : Nat) (hc : c = tpCtsPackets (tpPacketCount m.len))
 
 /-- **the receiver polls with the last window**: EndOfMsgACK and exactly one delivery -/
 theorem poll_last (k c x mt : Nat) (hc : c = tpCtsPackets (tpPacketCount m.len))
-    (hd : Lead b db) (hq : Quiet b.s 0) (hsrc : srcA < 256) (hdst : m.dst = db.source)
+    (hd : Lead b i db) (hq : Quiet b.s i) (hsrc : srcA < 256) (hdst : m.dst = db.source)
     (hnone : findIdx (sessOf srcA db.source) S' = none) (hj : j < S'.length) (hlen : m.len ≤ 223) (hl : m.len ≤ m.data.length)
-    (hnotp : (b.tp 0).hasPending = false) (hib : InfoIdle b 0) (hkc : k % c = 0) (hx : 1 ≤ x ∧ x ≤ c)
+    (hnotp : (b.tp i).hasPending = false) (hib : InfoIdle b i) (hkc : k % c = 0) (hx : 1 ≤ x ∧ x ≤ c)
     (hend : m.len ≤ 7 * (k + x)) (hnot : 7 * (k + x - 1) < m.len) :
     ∃ S'', poll (rcv b db m srcA j S' a0 mt [] k [] ((List.range x).map fun y => dtFrame srcA m (k + y))) =
       b.upd b.tp S'' [delivered m srcA db.source]
@@ -113,8 +115,8 @@ theorem poll_last (k c x mt : Nat) (hc : c = tpCtsPackets (tpPacketCount m.len))
   exact claimTick_lead _ hd.claims
 
 /-- **the receiver polls with the RTS in its queue**: first CTS, the session slot is set up -/
-theorem poll_rts (hd : Lead b db) (hq : Quiet b.s 0) (hsrc : srcA < 256) (hdst : m.dst = db.source)
-    (hlen : m.len ≤ 223) (hpgn : m.pgn < 2^24) (hnotp : (b.tp 0).hasPending = false) (hib : InfoIdle b 0)
+theorem poll_rts (hd : Lead b i db) (hq : Quiet b.s i) (hsrc : srcA < 256) (hdst : m.dst = db.source)
+    (hlen : m.len ≤ 223) (hpgn : m.pgn < 2^24) (hnotp : (b.tp i).hasPending = false) (hib : InfoIdle b i)
     (hknown : (checkKnown m.pgn).1 = true ∨ ¬ b.onlyKnown = true)
     (hS : S' = b.slots.map (freeSess srcA db.source))
     (hj : findIdx (slotHit m.pgn srcA db.source true) S' = some j) (ha0 : S'[j]? = some a0) :
@@ -123,15 +125,15 @@ theorem poll_rts (hd : Lead b db) (hq : Quiet b.s 0) (hsrc : srcA < 256) (hdst :
   have hdsrc : db.source ≤ 251 := by
     exact hd.src hq
   generalize hN : b.upd b.tp b.slots [] [] [cmFrame srcA m.dst (announceBytes 16 m)] = N
-  have hNq : Quiet N.s 0 := by subst hN; exact upd_quiet _ _ _ _ _ _ hq
-  have hNd : Lead N db := by subst hN; exact hd.same _ _ _ _
+  have hNq : Quiet N.s i := by subst hN; exact upd_quiet _ _ _ _ _ _ hq
+  have hNd : Lead N i db := by subst hN; exact hd.same _ _ _ _
   rw [poll_solo N db hNd hNq (by subst hN; exact hib) (fun h => by subst hN; simp [hnotp] at h) (by subst hN; simp)]
   have hrx : N.rxq = [cmIn srcA db.source (announceBytes 16 m)] := by subst hN; rw [← hdst]; rfl
   rw [hrx]
   simp only [rxList, List.foldl_cons, List.foldl_nil]
   rw [rxFrame_cm N srcA db.source _ hsrc (by omega) (by simp [announceBytes, le3])]
   unfold handleCM
-  have hfd : findDev N.s.devs db.source = some 0 := findDev_lead hNd.dev0 (by omega)
+  have hfd : findDev N.s.devs db.source = some i := findDev_lead hNd (by omega)
   have hpc : packetCount m.len % 256 = tpPacketCount m.len := by
     rw [packetCount_eq]; have := tpPacketCount_le m.len hlen; omega
   have hsz : m.len % 256 + m.len / 256 % 256 * 256 = m.len := by omega
@@ -141,7 +143,7 @@ theorem poll_rts (hd : Lead b db) (hq : Quiet b.s 0) (hsrc : srcA < 256) (hdst :
   have hNs : N.slots = b.slots := by subst hN; rfl
   have hNn : N.s.now = b.s.now := by subst hN; rfl
   have hNo : N.onlyKnown = b.onlyKnown := by subst hN; rfl
-  rw [handleStart_rts_quiet N srcA db.source 0 m.pgn m.len (tpPacketCount m.len) j db a0 hNq hNd.dev0 hsrc hlen
+  rw [handleStart_rts_quiet N srcA db.source i m.pgn m.len (tpPacketCount m.len) j db a0 hNq hNd.dev0 hsrc hlen
         (by rw [hNo]; exact hknown) (by rw [hNs, ← hS]; exact hj) (by rw [hNs, ← hS]; exact ha0)]
   rw [hNs, ← hS, hNn]
   subst hN
@@ -156,22 +158,22 @@ theorem poll_rts (hd : Lead b db) (hq : Quiet b.s 0) (hsrc : srcA < 256) (hdst :
 end
 
 /-- the sender's transport state after the EndOfMsgACK -/
-def doneTp (a : Node) (m : Msg) (seq : Nat) : Nat → TpDev :=
-  fun j => if j = 0 then { pend := { m with pgn := 0, len := 0 }, nextSeq := seq, timer := Sched.disabled a.s.flavor, hasPending := false }
+def doneTp (i : Nat) (a : Node) (m : Msg) (seq : Nat) : Nat → TpDev :=
+  fun j => if j = i then { pend := { m with pgn := 0, len := 0 }, nextSeq := seq, timer := Sched.disabled a.s.flavor, hasPending := false }
            else a.tp j
 
 /-- **the sender polls with the EndOfMsgACK in its queue**: the transfer is over -/
 theorem poll_endack (a : Node) (d : Dev) (m : Msg) (peer seq t0 tmo nb np : Nat) (sl : List Slot) (out : List Delivery)
-    (hd : Lead a d) (hq : Quiet a.s 0) (hi : InfoIdle a 0) (hm : m.dst = peer) (hpeer : peer < 255)
+    (hd : Lead a i d) (hq : Quiet a.s i) (hi : InfoIdle a i) (hm : m.dst = peer) (hpeer : peer < 255)
     (hpgn : m.pgn < 2^24) (htmo : tmo ≤ 100) (ht0 : t0 ≤ a.s.now ∧ a.s.now < t0 + tmo) (h64 : a.s.now + 100 < M64) :
-    poll (a.upd (txTp a m seq t0 tmo) sl out [] [cmFrame peer d.source (endAckBytes m.pgn nb np)]) =
-      a.upd (doneTp a m seq) sl out [] [] := by
+    poll (a.upd (txTp i a m seq t0 tmo) sl out [] [cmFrame peer d.source (endAckBytes m.pgn nb np)]) =
+      a.upd (doneTp i a m seq) sl out [] [] := by
   have hsrc : d.source ≤ 251 := by
     exact hd.src hq
-  generalize hN : a.upd (txTp a m seq t0 tmo) sl out [] [cmFrame peer d.source (endAckBytes m.pgn nb np)] = N
-  have hNq : Quiet N.s 0 := by subst hN; exact upd_quiet _ _ _ _ _ _ hq
-  have hNd : Lead N d := by subst hN; exact hd.upd _ _ _ _ _ (fun k hk => by simp [txTp, Nat.ne_of_gt hk, hd.others k hk])
-  have hNt : (N.tp 0).timer.isTime N.s.flavor N.s.now = false := by
+  generalize hN : a.upd (txTp i a m seq t0 tmo) sl out [] [cmFrame peer d.source (endAckBytes m.pgn nb np)] = N
+  have hNq : Quiet N.s i := by subst hN; exact upd_quiet _ _ _ _ _ _ hq
+  have hNd : Lead N i d := by subst hN; exact hd.upd _ _ _ _ _ (fun k hk => by simp [txTp, hk, hd.others k hk])
+  have hNt : (N.tp i).timer.isTime N.s.flavor N.s.now = false := by
     subst hN
     simp only [upd_tp, txTp, ↓reduceIte, upd_flavor, upd_now]
     exact isTime_fromNow_early _ _ _ _ ht0.1 ht0.2 (by omega) (by omega)
@@ -181,23 +183,23 @@ theorem poll_endack (a : Node) (d : Dev) (m : Msg) (peer seq t0 tmo nb np : Nat)
   simp only [rxList, List.foldl_cons, List.foldl_nil]
   rw [rxFrame_cm N peer d.source _ (by omega) (by omega) (by simp [endAckBytes, le3])]
   unfold handleCM
-  have hfd : findDev N.s.devs d.source = some 0 := findDev_lead hNd.dev0 (by omega)
+  have hfd : findDev N.s.devs d.source = some i := findDev_lead hNd (by omega)
   simp only [hfd, endAckBytes, le3, List.cons_append, List.nil_append, List.getD_cons_zero, List.getD_cons_succ, le3_sum m.pgn hpgn]
   simp only [Nat.reduceEqDiff, or_self, true_or, ↓reduceIte]
-  have hpend : (N.tp 0).pend = m := by subst hN; simp [txTp]
+  have hpend : (N.tp i).pend = m := by subst hN; simp [txTp]
   have h1 : ¬ (m.dst = 0xff) := by omega
   have h2 : ¬ (m.pgn ≠ m.pgn ∨ m.dst ≠ peer) := by
     intro h; rcases h with h | h
     · exact h rfl
     · exact h hm
-  have hend : handleEnd N 0 peer m.pgn = endSendTP N 0 := by
+  have hend : handleEnd N i peer m.pgn = endSendTP N i := by
     unfold handleEnd
     simp only [hpend]
     rw [if_neg h1, if_neg h2]
   rw [hend]
   subst hN
-  have hres : ∀ X : Node, X = a.upd (doneTp a m seq) sl out [] [cmFrame peer d.source (endAckBytes m.pgn nb np)] →
-      claimTick { X with rxq := [] } = a.upd (doneTp a m seq) sl out [] [] := by
+  have hres : ∀ X : Node, X = a.upd (doneTp i a m seq) sl out [] [cmFrame peer d.source (endAckBytes m.pgn nb np)] →
+      claimTick { X with rxq := [] } = a.upd (doneTp i a m seq) sl out [] [] := by
     intro X hX; subst hX
     exact claimTick_lead _ hd.claims
   apply hres
@@ -206,6 +208,6 @@ theorem poll_endack (a : Node) (d : Dev) (m : Msg) (peer seq t0 tmo nb np : Nat)
   unfold Node.upd
   congr 1
   funext j
-  by_cases hj : j = 0 <;> simp [txTp, doneTp, hj, hi.1, hi.2]
+  by_cases hj : j = i <;> simp [txTp, doneTp, hj, hi.1, hi.2]
 
 end N2k.TP
